@@ -185,22 +185,24 @@ example : formatPkixName .msosco derCNa = .ok (ascii "CN=a") := by
 /-! ## 3. the manifest -/
 
 /-- **identity_fields_are_signers.**  When `Sign` succeeds, the manifest carries exactly one top-level
-    `publisherIdentity`, whose name and issuerKeyHash are those derived from the signing certificate; every other part of
-    the manifest is untouched; the `publicKeyToken` a reader finds on `assemblyIdentity` is the signing key's (provided no
-    namespace-prefixed attribute of that local name precedes it), all other attributes keep their values; and signing
-    again with any other certificate gives exactly what signing the original with that certificate gives. -/
+    `publisherIdentity`, whose name and issuerKeyHash are those derived from the signing certificate, the licence names the
+    same subject, every other part of the manifest is untouched; the unprefixed `publicKeyToken` attribute of
+    `assemblyIdentity` – the one `Sign` reports, audits and `Verify` reads – is the signing key's token whatever else the
+    element carries, all other attributes keep their values; and signing again with any other certificate gives exactly
+    what signing the original with that certificate gives. -/
 theorem identity_fields_are_signers {α} (sha1 : Bytes → Bytes) (m m' : Manifest α) (c : Loaded)
     (h : signIdent sha1 m c = .ok m') :
     ∃ id attrs, identOf sha1 c = .ok id ∧ m.asi = some attrs ∧
-      m'.publishers = [(id.name, id.issuerKeyHash)] ∧ m'.others = m.others ∧
-      (NoPrefixedBefore "publicKeyToken" attrs → m'.asi.map (attrValue "publicKeyToken") = some id.token) ∧
+      m'.publishers = [(id.name, id.issuerKeyHash)] ∧ m'.licSubject = some id.name ∧ m'.others = m.others ∧
+      m'.asi.map (attrValue "publicKeyToken") = some id.token ∧
       (∀ k, k ≠ "publicKeyToken" → m'.asi.map (attrValue k) = some (attrValue k attrs)) ∧
       (∀ c2, signIdent sha1 m' c2 = signIdent sha1 m c2) := by
   obtain ⟨id, attrs, hid, ha, hm⟩ := signIdent_ok sha1 m m' c h
-  refine ⟨id, attrs, hid, ha, ?_, ?_, ?_, ?_, ?_⟩
+  refine ⟨id, attrs, hid, ha, ?_, ?_, ?_, ?_, ?_, ?_⟩
   · rw [hm]
   · rw [hm]
-  · intro hp; rw [hm]; simp [attrValue_createAttr _ _ _ hp]
+  · rw [hm]
+  · rw [hm]; simp [attrValue_createAttr]
   · intro k hk; rw [hm]; simp [attrValue_createAttr_other _ _ _ _ hk]
   · intro c2; exact signIdent_resign sha1 m m' c c2 h
 
@@ -208,42 +210,30 @@ theorem identity_fields_are_signers {α} (sha1 : Bytes → Bytes) (m m' : Manife
     of SHA-1 over the subjectPublicKey bits of the first loaded certificate whose subject equals the leaf's issuer;
     name = the MS-OSCO string of the leaf's subject -/
 theorem identity_is_derived_from_certificate (sha1 : Bytes → Bytes) (c : Loaded) (id : Ident) (h : identOf sha1 c = .ok id) :
-    ∃ snk t ik s n, publicKeyToSnk c.leaf.key = .ok snk ∧ tokenSel (sha1 snk) = .ok t ∧ id.token = hexStr t ∧
-      issuerOf c = some ik ∧ skidStream ik = .ok s ∧ id.issuerKeyHash = hexStr (sha1 s) ∧
+    ∃ snk t iss s n, publicKeyToSnk c.leaf.key = .ok snk ∧ tokenSel (sha1 snk) = .ok t ∧ id.token = hexStr t ∧
+      issuerCert c = some iss ∧ skidStream iss.key = .ok s ∧ id.issuerKeyHash = hexStr (sha1 s) ∧
       formatPkixName .msosco c.leaf.subject = .ok n ∧ id.name = bytesToString n := by
-  unfold identOf publicKeyToken publisherIdentity at h
-  cases h1 : publicKeyToSnk c.leaf.key with
+  obtain ⟨ht, iss, s, n, h1, h2, h3, h4, h5⟩ := identOf_ok sha1 c id h
+  unfold publicKeyToken at ht
+  cases hs : publicKeyToSnk c.leaf.key with
   | ok snk =>
-    cases h2 : tokenSel (sha1 snk) with
+    cases hsel : tokenSel (sha1 snk) with
     | ok t =>
-      cases h3 : issuerOf c with
-      | none => simp [h1, h2, h3] at h
-      | some ik =>
-        cases h4 : skidStream ik with
-        | ok s =>
-          cases h5 : formatPkixName .msosco c.leaf.subject with
-          | ok n =>
-            simp only [h1, h2, h3, h4, h5] at h
-            cases h
-            exact ⟨snk, t, ik, s, n, rfl, h2, rfl, rfl, h4, rfl, rfl, rfl⟩
-          | err e => simp [h1, h2, h3, h4, h5] at h
-          | panic p => simp [h1, h2, h3, h4, h5] at h
-          | diverge => simp [h1, h2, h3, h4, h5] at h
-        | err e => simp [h1, h2, h3, h4] at h
-        | panic p => simp [h1, h2, h3, h4] at h
-        | diverge => simp [h1, h2, h3, h4] at h
-    | err e => simp [h1, h2] at h
-    | panic p => simp [h1, h2] at h
-    | diverge => simp [h1, h2] at h
-  | err e => simp [h1] at h
-  | panic p => simp [h1] at h
-  | diverge => simp [h1] at h
+      simp only [hs, hsel, Res.ok.injEq] at ht
+      exact ⟨snk, t, iss, s, n, rfl, hsel, ht.symm, h1, h2, h3, h4, h5⟩
+    | err e => simp [hs, hsel] at ht
+    | panic p => simp [hs, hsel] at ht
+    | diverge => simp [hs, hsel] at ht
+  | err e => simp [hs] at ht
+  | panic p => simp [hs] at ht
+  | diverge => simp [hs] at ht
 
 /-- non-vacuity: a self-signed P-256 certificate with subject CN=a, a hash that answers twenty 7s, a manifest with a
-    stale token and two stale publishers: `Sign` succeeds -/
-def demoCert : Loaded := ⟨⟨.ec 256 1 2, derCNa, derCNa⟩, [(derCNa, .ec 256 1 2)]⟩
-def demoManifest : Manifest Unit := ⟨some [⟨"", "name", "App.exe"⟩, ⟨"", "publicKeyToken", "0000000000000000"⟩],
-  [("CN=Old", "00"), ("CN=Older", "01")], ()⟩
+    stale token, a shadowing prefixed attribute and two stale publishers: `Sign` succeeds -/
+def demoCert : Loaded := ⟨⟨.ec 256 1 2, derCNa, derCNa⟩, [⟨derCNa, derCNa, .ec 256 1 2, true⟩]⟩
+def demoManifest : Manifest Unit :=
+  ⟨some [⟨"", "name", "App.exe"⟩, ⟨"q", "publicKeyToken", "shadow"⟩, ⟨"", "publicKeyToken", "0000000000000000"⟩],
+   [("CN=Old", "00"), ("CN=Older", "01")], none, ()⟩
 
 def demoHash : Bytes → Bytes := fun _ => List.replicate 20 7
 
@@ -256,46 +246,179 @@ theorem demo_publisher :
     publisherIdentity demoHash demoCert = .ok (bytesToString (ascii "CN=a"), hexStr (List.replicate 20 7)) := by
   have f : formatPkixName .msosco derCNa = .ok (ascii "CN=a") := by
     simp only [formatPkixName, parse_example]; decide
-  simp [publisherIdentity, issuerOf, demoCert, skidStream, ecMagic, f, demoHash]
+  simp [publisherIdentity, issuerOf, issuerCert, demoCert, skidStream, ecMagic, f, demoHash]
 
 example : ∃ m', signIdent demoHash demoManifest demoCert = .ok m' := by
   rw [signIdent_eq, demo_token, demo_publisher]
   exact ⟨_, rfl⟩
 
-/-- the exact exception to "a reader finds the signer's token": a namespace-prefixed attribute of the same local name
-    that comes first is what etree's `SelectAttrValue` returns -/
-theorem identity_token_prefixed_exception :
-    attrValue "publicKeyToken" (createAttr "publicKeyToken" "0123456789abcdef" [⟨"q", "publicKeyToken", "x"⟩]) = "x" ∧
+/-- before the repair `Sign` and `Verify` looked the token up by local name (`SelectAttrValue`): a namespace-prefixed
+    attribute of the same local name that comes first shadowed the token just written -/
+theorem identity_token_prefixed_exception_orig :
+    attrValueOrig "publicKeyToken" (createAttr "publicKeyToken" "0123456789abcdef" [⟨"q", "publicKeyToken", "x"⟩]) = "x" ∧
+    attrValue "publicKeyToken" (createAttr "publicKeyToken" "0123456789abcdef" [⟨"q", "publicKeyToken", "x"⟩]) = "0123456789abcdef" ∧
     ¬ NoPrefixedBefore "publicKeyToken" [⟨"q", "publicKeyToken", "x"⟩] := by decide
 
-/-- what relic's verifier accepts after its own `Sign` (identity comparison only; both XML signatures are C19's
-    other clauses) -/
-theorem verify_accepts_signed_partial {α} (sha1 : Bytes → Bytes) (m m' : Manifest α) (c : Loaded)
-    (h : signIdent sha1 m c = .ok m') (attrs : List XAttr) (ha : m.asi = some attrs)
-    (hp : NoPrefixedBefore "publicKeyToken" attrs) : verifyIdent sha1 m' c.leaf.key = .ok () :=
-  verifyIdent_signed sha1 m m' c h attrs ha hp
+/-- **verify_accepts_signed.**  The identity comparisons of the repaired `Verify` accept what `Sign` wrote (`Sign` puts
+    `Chain()` into the licence signature), for every manifest and every certificate for which `Issuer()` and `Chain()`
+    agree: the certificate whose key hash was written is carried, or no certificate named like the issuer is carried
+    (then the field is not judged).  (Both XML signatures are C19's other clauses.  What the XML writer does to a name
+    it cannot carry is `verify_rejects_rewritten_name`.) -/
+theorem verify_accepts_signed {α} (sha1 : Bytes → Bytes) (m m' : Manifest α) (c : Loaded)
+    (h : signIdent sha1 m c = .ok m') (hc : IssuerAgrees c) : verifyIdent sha1 m' c.leaf.key (chainOf c) = .ok () :=
+  verifyIdent_signed sha1 m m' c h hc
 
-/-- **stated gap.**  `Verify` compares the token with the key of the signature and nothing else: whatever the
-    `publisherIdentity` elements say (or if there is none), the outcome is the same. -/
-theorem verify_ignores_publisher {α} (sha1 : Bytes → Bytes) (m : Manifest α) (pubs : List (String × String)) (k : PubKey) :
-    verifyIdent sha1 { m with publishers := pubs } k = verifyIdent sha1 m k := verifyIdent_publishers sha1 m pubs k
+theorem demo_agrees : IssuerAgrees demoCert := by
+  intro iss h
+  left
+  exact ⟨⟨derCNa, derCNa, .ec 256 1 2, true⟩, by simp [chainOf, demoCert], rfl, by
+    have : issuerCert demoCert = some ⟨derCNa, derCNa, .ec 256 1 2, true⟩ := by decide
+    rw [this] at h; cases h; rfl⟩
 
+example : verifyIdent demoHash
+    ⟨some [⟨"", "publicKeyToken", hexStr (List.replicate 8 7)⟩], [(bytesToString (ascii "CN=a"), hexStr (List.replicate 20 7))],
+     some (bytesToString (ascii "CN=a")), ()⟩ demoCert.leaf.key (chainOf demoCert) = .ok () := by
+  have h : signIdent demoHash (⟨some [], [], none, ()⟩ : Manifest Unit) demoCert = .ok
+      ⟨some [⟨"", "publicKeyToken", hexStr (List.replicate 8 7)⟩], [(bytesToString (ascii "CN=a"), hexStr (List.replicate 20 7))],
+       some (bytesToString (ascii "CN=a")), ()⟩ := by
+    rw [signIdent_eq, demo_token, demo_publisher]; rfl
+  exact verify_accepts_signed demoHash _ _ demoCert h demo_agrees
+
+/-- the usual layouts agree: a CA-issued leaf whose (self-signed) CA `Chain()` leaves out – nothing named like the issuer
+    is carried – and the same with an intermediate that is carried -/
+example : IssuerAgrees ⟨⟨.ec 256 1 2, [1], [2]⟩, [⟨[1], [2], .ec 256 1 2, true⟩, ⟨[2], [2], .ec 256 3 4, false⟩]⟩ := by
+  intro iss h
+  right
+  intro y hy
+  simp [chainOf, chainRest] at hy
+  subst hy; decide
+
+/-- the exact exception: `Issuer()` picks the first certificate named like the issuer (here a self-signed one that
+    `Chain()` leaves out), `Chain()` carries another certificate of that name with another key – relic's `Verify` then
+    refuses relic's own manifest -/
+theorem verify_accepts_signed_needs_agreement :
+    ¬ IssuerAgrees ⟨⟨.ec 256 1 2, [1], [2]⟩,
+      [⟨[1], [2], .ec 256 1 2, true⟩, ⟨[2], [2], .ec 256 3 4, false⟩, ⟨[2], [9], .ec 256 5 6, false⟩]⟩ := by
+  intro h
+  have := h ⟨[2], [2], .ec 256 3 4, false⟩ (by decide)
+  rcases this with ⟨y, hy, _, hk⟩ | hn
+  · simp [chainOf, chainRest] at hy
+    rcases hy with hy | hy <;> subst hy <;> simp at hk
+  · exact hn ⟨[2], [9], .ec 256 5 6, false⟩ (by simp [chainOf, chainRest]) rfl
+
+/-- **verify_checks_identity.**  Whatever manifest and whatever certificates a signature carries: if the repaired
+    `Verify` accepts under key `k`, then the unprefixed `publicKeyToken` is the token of `k`, there is exactly one
+    `publisherIdentity`, its name (and the licence's X509SubjectName) is the MS-OSCO string of the subject of the signing
+    certificate (the first carried certificate with key `k`), and – if the signature carries a certificate named like that
+    certificate's issuer – its issuerKeyHash is the key hash of such a carried certificate. -/
+theorem verify_checks_identity {α} (sha1 : Bytes → Bytes) (m : Manifest α) (k : PubKey) (carried : List LCert)
+    (h : verifyIdent sha1 m k carried = .ok ()) :
+    ∃ attrs token leaf n ikh,
+      m.asi = some attrs ∧ publicKeyToken sha1 k = .ok token ∧ attrValue "publicKeyToken" attrs = token ∧
+      carried.find? (fun c => c.key = k) = some leaf ∧ formatPkixName .msosco leaf.subject = .ok n ∧
+      m.publishers = [(bytesToString n, ikh)] ∧ m.licSubject = some (bytesToString n) ∧
+      ((∃ x ∈ carried, x.subject = leaf.issuer) →
+        ∃ cand s, cand ∈ carried ∧ cand.subject = leaf.issuer ∧ skidStream cand.key = .ok s ∧ ikh = hexStr (sha1 s)) :=
+  verifyIdent_ok sha1 m k carried h
+
+/-- full strength would be: an accepted manifest carries the issuerKeyHash `Sign` would have written for the signer's
+    certificate, whatever the signature carries -/
 def verify_checks_identity_full : Prop :=
-  ∀ (sha1 : Bytes → Bytes) (m : Manifest Unit) (c : Loaded) (id : Ident),
-    identOf sha1 c = .ok id → verifyIdent sha1 m c.leaf.key = .ok () → m.publishers = [(id.name, id.issuerKeyHash)]
+  ∀ (sha1 : Bytes → Bytes) (m : Manifest Unit) (c : Loaded) (id : Ident) (carried : List LCert),
+    identOf sha1 c = .ok id → carried.find? (fun x => x.key = c.leaf.key) = some ⟨c.leaf.subject, c.leaf.issuer, c.leaf.key, true⟩ →
+    verifyIdent sha1 m c.leaf.key carried = .ok () → m.publishers = [(id.name, id.issuerKeyHash)]
+
+/-- **remaining gap (F-ident-verify-publisher-issuer).**  When the signature carries no certificate named like the
+    signing certificate's issuer, the issuerKeyHash cannot be judged and any value is accepted. -/
+theorem verify_accepts_foreign_issuer_hash :
+    verifyIdent demoHash
+      (⟨some [⟨"", "publicKeyToken", hexStr (List.replicate 8 7)⟩], [(bytesToString (ascii "CN=a"), "abab")],
+        some (bytesToString (ascii "CN=a")), ()⟩ : Manifest Unit)
+      (.ec 256 1 2) [⟨derCNa, [0x30, 0], .ec 256 1 2, true⟩] = .ok () := by
+  have f : formatPkixName .msosco derCNa = .ok (ascii "CN=a") := by
+    simp only [formatPkixName, parse_example]; decide
+  have t := demo_token
+  simp only [demoCert] at t
+  simp [verifyIdent, t, attrValue, checkPublisher, f]
+  decide
+
+/-- a certificate like `demoCert` but issued by a CA (subject `30 00`) that is loaded and whose key hash `Sign` writes -/
+def caIssued : Loaded := ⟨⟨.ec 256 1 2, derCNa, [0x30, 0]⟩, [⟨derCNa, [0x30, 0], .ec 256 1 2, true⟩, ⟨[0x30, 0], [0x30, 0], .ec 256 3 4, false⟩]⟩
 
 theorem verify_checks_identity_full_false : ¬ verify_checks_identity_full := by
   intro h
+  have f : formatPkixName .msosco derCNa = .ok (ascii "CN=a") := by
+    simp only [formatPkixName, parse_example]; decide
+  have t : publicKeyToken demoHash caIssued.leaf.key = .ok (hexStr (List.replicate 8 7)) := demo_token
+  have hid : identOf demoHash caIssued = .ok ⟨hexStr (List.replicate 8 7), bytesToString (ascii "CN=a"), hexStr (List.replicate 20 7)⟩ := by
+    have hp : publisherIdentity demoHash caIssued = .ok (bytesToString (ascii "CN=a"), hexStr (List.replicate 20 7)) := by
+      simp [publisherIdentity, issuerOf, issuerCert, caIssued, skidStream, ecMagic, f, demoHash]
+      decide
+    simp [identOf, t, hp]
+  have := h demoHash _ caIssued _ [⟨derCNa, [0x30, 0], .ec 256 1 2, true⟩] hid (by decide) verify_accepts_foreign_issuer_hash
+  simp at this
+  exact absurd this (by decide)
+
+/-- a publisher name other than the one recomputed from the certificate is refused (this is also what happens to relic's
+    own output when the XML writer had to replace a character of the name: F-ident-t61-bytes) -/
+theorem verify_rejects_rewritten_name {α} (sha1 : Bytes → Bytes) (m : Manifest α) (k : PubKey) (carried : List LCert)
+    (attrs : List XAttr) (token : String) (leaf : LCert) (n : Bytes) (name ikh : String)
+    (ha : m.asi = some attrs) (ht : publicKeyToken sha1 k = .ok token) (htok : attrValue "publicKeyToken" attrs = token)
+    (hl : carried.find? (fun c => c.key = k) = some leaf) (hf : formatPkixName .msosco leaf.subject = .ok n)
+    (hp : m.publishers = [(name, ikh)]) (hne : name ≠ bytesToString n) :
+    verifyIdent sha1 m k carried = .err "publisher-name-mismatch" := by
+  simp [verifyIdent, ha, ht, htok, hl, checkPublisher, hp, hf, hne]
+
+/-- a foreign issuerKeyHash is refused as soon as a certificate named like the issuer is carried -/
+example : verifyIdent demoHash
+      (⟨some [⟨"", "publicKeyToken", hexStr (List.replicate 8 7)⟩], [(bytesToString (ascii "CN=a"), "abab")],
+        some (bytesToString (ascii "CN=a")), ()⟩ : Manifest Unit)
+      (.ec 256 1 2) (chainOf demoCert) = .err "publisher-ikh-mismatch" := by
+  have f : formatPkixName .msosco derCNa = .ok (ascii "CN=a") := by
+    simp only [formatPkixName, parse_example]; decide
+  have t := demo_token
+  simp only [demoCert] at t
+  simp [verifyIdent, t, attrValue, checkPublisher, f, chainOf, chainRest, demoCert, issuerHashMatches, skidStream, ecMagic, demoHash]
+  decide
+
+/-- **stated gap of the original.**  The original `Verify` compared the token with the key of the signature and nothing
+    else: whatever the `publisherIdentity` elements and the licence said (or if there was none), the outcome was the same. -/
+theorem verify_ignores_publisher_orig {α} (sha1 : Bytes → Bytes) (m : Manifest α) (pubs : List (String × String))
+    (lic : Option String) (k : PubKey) :
+    verifyIdentOrig sha1 { m with publishers := pubs, licSubject := lic } k = verifyIdentOrig sha1 m k :=
+  verifyIdentOrig_publishers sha1 m pubs lic k
+
+def verify_checks_identity_orig : Prop :=
+  ∀ (sha1 : Bytes → Bytes) (m : Manifest Unit) (c : Loaded) (id : Ident),
+    identOf sha1 c = .ok id → verifyIdentOrig sha1 m c.leaf.key = .ok () → m.publishers = [(id.name, id.issuerKeyHash)]
+
+theorem verify_checks_identity_orig_false : ¬ verify_checks_identity_orig := by
+  intro h
   have hid : identOf demoHash demoCert = .ok ⟨hexStr (List.replicate 8 7), bytesToString (ascii "CN=a"), hexStr (List.replicate 20 7)⟩ := by
     simp [identOf, demo_token, demo_publisher]
-  have hv : verifyIdent demoHash (⟨some [⟨"", "publicKeyToken", hexStr (List.replicate 8 7)⟩], [], ()⟩ : Manifest Unit)
+  have hv : verifyIdentOrig demoHash (⟨some [⟨"", "publicKeyToken", hexStr (List.replicate 8 7)⟩], [], none, ()⟩ : Manifest Unit)
       demoCert.leaf.key = .ok () := by
-    simp [verifyIdent, demo_token, attrValue]
+    simp [verifyIdentOrig, demo_token, attrValueOrig]
   have := h demoHash _ demoCert _ hid hv
   simp at this
 
-/-- RSA exponents of 31 bits: accepted by crypto/rsa and written by `xmldsig.Sign`, refused by `xmldsig.parsePublicKey` -/
-theorem rsa_exponent_31_bits_refused : xmlKeyValueOk (.rsa 35 (2 ^ 31 - 1)) = false ∧ xmlKeyValueOk (.rsa 35 65537) = true := by
+/-- … and the same manifest is refused by the repaired comparison -/
+example : verifyIdent demoHash (⟨some [⟨"", "publicKeyToken", hexStr (List.replicate 8 7)⟩], [], none, ()⟩ : Manifest Unit)
+    demoCert.leaf.key (chainOf demoCert) = .err "publisher-missing" := by
+  simp [verifyIdent, demo_token, attrValue, chainOf_find_leaf, checkPublisher]
+
+/-- RSA exponents of 31 bits: accepted by crypto/rsa and written by `xmldsig.Sign`, refused by the original
+    `xmldsig.parsePublicKey` … -/
+theorem rsa_exponent_gap_orig : rsaUsable (.rsa 35 (2 ^ 31 - 1)) = true ∧ xmlKeyValueOkOrig (.rsa 35 (2 ^ 31 - 1)) = false := by
   decide
+
+/-- … the repaired one accepts every exponent crypto/rsa can sign with -/
+theorem rsa_exponent_no_gap (k : PubKey) (h : rsaUsable k = true) : xmlKeyValueOk k = true := by
+  cases k with
+  | rsa n e => simp only [rsaUsable, Bool.decide_and, Bool.and_eq_true, decide_eq_true_eq] at h; simp [xmlKeyValueOk, h.2]
+  | ec b x y => rfl
+  | other => rfl
+
+example : rsaUsable (.rsa 35 (2 ^ 31 - 1)) = true := by decide
 
 end Relic.Props.C19
